@@ -223,6 +223,36 @@ impl Check for NormCheck {
                 }
             }
         }
+        // ---- path 4 (sample): the LSP formatting request on the real server threads must return the same
+        // text as the library export, and be a fixpoint after didChange(own output)
+        if case % 8 == 0 && pinned.is_none() && (self.prop == "C01" || self.prop == "C02") {
+            let ext = if case % 16 == 0 { ".md" } else { "" };
+            if let Ok(out1) = mon::catch(|| export_lib(&lib.texts, ext)) {
+                crate::lsp::reset_log();
+                let mut s = crate::lsp::Server::start_mem(&lib.texts, ext);
+                for (key, want) in &out1 {
+                    rep.count("lsp_formatting_requests", 1);
+                    let got = s.formatted_text(key);
+                    if got.as_ref() != Some(want) {
+                        rep.violate("lsp-formatting-differs-from-export", locus, format!("note {} ext `{}`: formatting request returned {:?}, export {:?}", key, ext, got.as_ref().map(|t| crate::checks::norm::first_diff_line(t, want)), want.lines().next()), replay(ext));
+                        break;
+                    }
+                }
+                if self.prop == "C02" {
+                    for (key, want) in &out1 {
+                        s.did_change(key, want);
+                    }
+                    for (key, want) in &out1 {
+                        let got = s.formatted_text(key);
+                        if got.as_ref() != Some(want) {
+                            rep.violate("not-fixpoint-lsp", locus, format!("note {} ext `{}`: formatting after didChange(own output) differs: {:?}", key, ext, got.as_ref().map(|t| crate::checks::norm::first_diff_line(want, t))), replay(ext));
+                            break;
+                        }
+                    }
+                }
+                let _ = s.shutdown();
+            }
+        }
         if case < 3 {
             let (k, t) = lib.texts.iter().next().unwrap();
             rep.sample = Some(json!({"key": k, "input": t, "notes_in_library": lib.texts.len()}));
